@@ -28,7 +28,7 @@ type HostileFileCase struct {
 }
 
 var hostileFileMuts = []string{"bitflip", "byteset", "truncate", "len-larger", "len-smaller", "len-4gib", "len-indefinite", "deep-nesting", "deep-nesting-definite", "many-nodes", "tag-zero", "long-tag",
-	"inner-len-lie", "duplicate-inner", "empty-inner", "random-tail", "giant-claimed-image", "zero-fill"}
+	"inner-len-lie", "duplicate-inner", "empty-inner", "random-tail", "giant-claimed-image", "zero-fill", "repeat-entries", "unwrap-and-repeat", "inner-bad-oid"}
 
 var hostileFileTargets = []string{"cardaccess", "sod", "com", "dg1", "dg2", "dg7", "dg11", "dg12", "dg13", "dg14", "dg15", "dg16", "cardsecurity"}
 
@@ -147,6 +147,84 @@ func mutateFile(orig []byte, mut string, a, b int, rng *core.Rng) []byte {
 			body = nest(tag, 14000, []byte{0x04, 0x00})
 		}
 		return chip.EncTLV(outerTag, body)
+	case "repeat-entries", "unwrap-and-repeat":
+		// every entry of the tag list (5C) and every other object repeated n times; in the second form the first
+		// constructed child is unwrapped first (its objects promoted to the parent, a layout seen on real documents)
+		kids, err := chip.ParseTLVs(inner)
+		if err != nil || len(kids) == 0 {
+			return f
+		}
+		if mut == "unwrap-and-repeat" {
+			var flat []chip.TLV
+			done := false
+			for _, k := range kids {
+				if !done && k.Tag&0x20 != 0 && k.Tag < 0x100 {
+					if sub, err := chip.ParseTLVs(k.Val); err == nil {
+						for _, x := range sub {
+							if x.Tag != 0x02 {
+								flat = append(flat, x)
+							}
+						}
+						done = true
+						continue
+					}
+				}
+				flat = append(flat, k)
+			}
+			kids = flat
+		}
+		n := []int{40, 150, 400, 900}[a%4]
+		var g []byte
+		for _, k := range kids {
+			if k.Tag == 0x5C {
+				g = append(g, chip.EncTLV(0x5C, bytes.Repeat(k.Val, n))...)
+			}
+		}
+		for _, k := range kids {
+			if k.Tag == 0x5C {
+				continue
+			}
+			raw := k.Raw
+			if len(raw) > 24 {
+				raw = chip.EncTLV(k.Tag, k.Val[:min(len(k.Val), 8)])
+			}
+			g = append(g, bytes.Repeat(raw, n)...)
+		}
+		if len(g) > 60000 {
+			g = g[:60000]
+		}
+		return chip.EncTLV(outerTag, g)
+	case "inner-bad-oid":
+		// an OBJECT IDENTIFIER object with a dangling continuation octet, at the root, inside the first constructed
+		// child, or replacing the first primitive child
+		bad := [][]byte{{0x06, 0x01, 0x80}, {0x06, 0x02, 0x2A, 0x80}, {0x06, 0x00}, {0x06, 0x03, 0x80, 0x80, 0x80}}[b%4]
+		kids, err := chip.ParseTLVs(inner)
+		if err != nil || len(kids) == 0 {
+			return chip.EncTLV(outerTag, append(bytes.Clone(bad), inner...))
+		}
+		var g []byte
+		placed := false
+		for _, k := range kids {
+			switch a % 3 {
+			case 1:
+				if !placed && k.Tag&0x20 != 0 && k.Tag < 0x100 {
+					g = append(g, chip.EncTLV(k.Tag, append(bytes.Clone(bad), k.Val...))...)
+					placed = true
+					continue
+				}
+			case 2:
+				if !placed && (k.Tag&0x20 == 0 || k.Tag >= 0x100) && k.Tag != 0x5C && k.Tag != 0x02 {
+					g = append(g, bad...)
+					placed = true
+					continue
+				}
+			}
+			g = append(g, k.Raw...)
+		}
+		if !placed {
+			g = append(bytes.Clone(bad), g...)
+		}
+		return chip.EncTLV(outerTag, g)
 	case "many-nodes":
 		return chip.EncTLV(outerTag, bytes.Repeat([]byte{0x04, 0x00}, 9000+a%6000))
 	case "tag-zero":
